@@ -100,8 +100,10 @@ def judge_pipeline(kinds, wire, closed, calls, mode, escaped):
         elif k == "expect-refused":
             if status != 400:
                 v.append(("status", f"kinds={kinds} mode={mode}: refused request answered {status}"))
-            if n100 > 1:
-                v.append(("interim-twice", f"kinds={kinds} mode={mode}: {n100} interim responses for request {i}"))
+            if n100:
+                # "... or is refused outright with a final error response": the framing error is known when
+                # the header block ends, so nothing may invite the client to send the body first
+                v.append(("interim-for-refused", f"kinds={kinds} mode={mode}: {n100} '100 Continue' sent for request {i}, which is then refused with {status}"))
         else:
             if status != 200:
                 v.append(("status", f"kinds={kinds} mode={mode}: request {i} ({k}) answered {status}"))
@@ -269,6 +271,13 @@ def e1_scenarios(tier):
     S.append(("expect-body first[arrives via I/O thread]", dict(pre="", segments=[(exp_head.decode("latin-1"), None), ("hello", "after100")], workers=1, lookahead=0, kinds=["plain", "expect-body"][1:]), 1 if q else 2))
     S.append(("GET,expect-nobody", dict(pre=(R(1) + exp_nobody).decode("latin-1"), workers=1, lookahead=0, kinds=["plain", "expect-nobody"]), 1 if q else 2))
     S.append(("GET,expect-body,GET", dict(pre=(R(1) + exp_head).decode("latin-1"), segments=[("hello" + R(3).decode("latin-1"), "after100")], workers=1, lookahead=0, kinds=["plain", "expect-body", "plain"]), 1 if q else 2))
+    # the preceding response is still spread over several output buffers (tiny watermark, slow client)
+    # when the worker sends the interim response: it must go behind all of it
+    for drains in ([3] * 16, [5] * 10):
+        segs = [(f"@drain:{d}", None) for d in drains] + [("@drain:None", None), ("hello", "after100")]
+        S.append((f"GET(big),expect-body[several outbufs pending,drains={drains[0]}]", dict(
+            pre=(R(1) + exp_head).decode("latin-1"), segments=segs, workers=1, lookahead=1, window=100,
+            adj=dict(outbuf_high_watermark=8, send_bytes=1), programs={"/r1": dict(body=["12345678", "abcdefgh", "ijklmnop", "qr"])}, kinds=["plain", "expect-body"]), 1))
     return S
 
 
